@@ -174,9 +174,16 @@ def le : Name → Name → Bool
   | _ :: _, [] => false
   | a :: as, b :: bs => if a.toNat < b.toNat then true else if b.toNat < a.toNat then false else le as bs
 
-/-- `v.sort()` on a `Vec<String>` (stable merge sort; the order is total and
-    antisymmetric, so the result is the unique sorted permutation). -/
-def sort (l : List Name) : List Name := l.mergeSort (fun a b => le a b)
+/-- insert into a sorted list, after every element that is `≤` the new one is passed -/
+def insertSorted (a : Name) : List Name → List Name
+  | [] => [a]
+  | b :: bs => if le a b then a :: b :: bs else b :: insertSorted a bs
+
+/-- `v.sort()` on a `Vec<String>`.  Rust's `sort` is a stable merge sort; the
+    order is total and antisymmetric, so every correct sorting algorithm returns
+    the same list (`TRL.sort_eq_of_perm`).  The model uses insertion sort
+    because it is structurally recursive (kernel-reducible). -/
+def sort (l : List Name) : List Name := l.foldr insertSorted []
 
 end RStr
 
@@ -323,6 +330,53 @@ def pkgName : Name := ['p', 'k', 'g']
 
 /-- `TypeInfo::full_name`: printed scope, `.`, item name. -/
 def fullName (path : List Name) (item : Name) : Name := dotJoin (pkgName :: path ++ [item])
+
+
+/-! ## Name spaces: declaring items, the function table of a package
+
+  Hand model.  The type checker declares every `fn f` under the key `f` and
+  every `test t` under the key `tcName t` in the module's scope
+  (`insert_function`); a second declaration with an existing key is the error
+  "… is declared multiple times".  The MIR lowerer names the item of `test t`
+  `mirName t`; code generation puts every function into `Module.functions`
+  under its full name.  `tcName`/`mirName` are parameters: the theorems
+  instantiate them with the GENERATED `test_fn_name_typechecker` /
+  `test_fn_name_mir`. -/
+
+def Decl.name : Decl → Name
+  | .fn n _ => n
+  | .test n _ => n
+
+def Decl.isTest : Decl → Bool
+  | .fn _ _ => false
+  | .test _ _ => true
+
+/-- the key a declaration occupies in its module's scope / in the function table -/
+def Decl.key (testName : Name → Name) : Decl → Name
+  | .fn n _ => n
+  | .test n _ => testName n
+
+def Decl.info (sig : Sig) : Decl → FnInfo
+  | .fn _ i => i
+  | .test _ v => ⟨sig, v⟩
+
+/-- declare the items of one module in source order; `none` = "declared multiple times" -/
+def declare (tcName : Name → Name) : List Decl → List Name → Option (List Name)
+  | [], scope => some scope
+  | d :: ds, scope =>
+    if d.key tcName ∈ scope then none else declare tcName ds (scope ++ [d.key tcName])
+
+/-- the entries one module contributes to `Module.functions` -/
+def moduleTable (mirName : Name → Name) (sig : Sig) (m : Mod) : Table :=
+  m.decls.map (fun d => (fullName m.path (d.key mirName), d.info sig))
+
+/-- the function table of a package that type-checks (its order is that of a hash map: irrelevant) -/
+def packageTable (mirName : Name → Name) (sig : Sig) (mods : List Mod) : Table :=
+  mods.flatMap (moduleTable mirName sig)
+
+/-- the keys of all test blocks of all modules -/
+def testKeys (mirName : Name → Name) (mods : List Mod) : List Name :=
+  mods.flatMap (fun m => (m.decls.filter Decl.isTest).map (fun d => fullName m.path (d.key mirName)))
 
 /-! ## The pipeline as seen by the CLI -/
 
